@@ -237,6 +237,12 @@ def main(argv):
         ctx.close()
         return 2
     ctx.close()
+    if os.environ.get("VERIF_REPO") and src_info:
+        # a mutation experiment on a scratch checkout has rewritten the tracked Generated/Src<prop>.lean: put back /repo's own
+        try:
+            srctie.generate(prop, "/repo")
+        except Exception:
+            pass
 
     # ---- 4. classification ------------------------------------------------------------------------------------------
     unknown_oracle, tie = [], []
